@@ -197,6 +197,8 @@ struct DecCase {
     drip: bool,
     /// fixed cyclic chunk lengths (big streams)
     fixed: Option<Vec<usize>>,
+    /// every DATA frame is handed over as a Buf of this many non-contiguous segments
+    segments: usize,
 }
 
 /// Returns (messages and the first error in order, number of `None`s seen, stalled?, number of
@@ -258,6 +260,7 @@ fn dec_body(c: &DecCase, ch: &Chooser) -> Outcome {
     };
     let sb = ScriptBody::new(wire_bytes.clone(), trailers, chunking, ch).with_marks(marks);
     let stats = sb.stats();
+    let sb = crate::env::Segmented { inner: sb, segments: c.segments };
     let enc = e.enc.map(tonic_enc);
     let bs = BufferSettings::new(e.settings.0, e.settings.1);
     let (got, ends, stalled) = if e.prost {
@@ -353,14 +356,18 @@ pub fn property(tier: Tier) -> Property {
             if big {
                 // too long for chosen cuts at bound>1: drip + bound-limited single cuts are
                 // covered by a dedicated case below
-                dec_cases.push(DecCase { enc_case: c.clone(), response, free: false, drip: true, fixed: None });
-                dec_cases.push(DecCase { enc_case: c.clone(), response, free: false, drip: false, fixed: Some(vec![]) });
-                dec_cases.push(DecCase { enc_case: c.clone(), response, free: false, drip: false, fixed: Some(vec![3, 16384, 1, 5000]) });
+                dec_cases.push(DecCase { enc_case: c.clone(), response, free: false, drip: true, fixed: None, segments: 1 });
+                dec_cases.push(DecCase { enc_case: c.clone(), response, free: false, drip: false, fixed: Some(vec![]), segments: 1 });
+                dec_cases.push(DecCase { enc_case: c.clone(), response, free: false, drip: false, fixed: Some(vec![3, 16384, 1, 5000]), segments: 1 });
                 continue;
             }
+            // non-contiguous DATA buffers: the whole body as one frame of 2 / 3 segments, and 7-byte frames of 2
+            for (fixed, segments) in [(vec![], 2), (vec![], 3), (vec![7], 2)] {
+                dec_cases.push(DecCase { enc_case: c.clone(), response, free: false, drip: false, fixed: Some(fixed), segments });
+            }
             let free = c.enc.is_none() && approx_len <= free_limit;
-            dec_cases.push(DecCase { enc_case: c.clone(), response, free, drip: false, fixed: None });
-            dec_cases.push(DecCase { enc_case: c.clone(), response, free: false, drip: true, fixed: None });
+            dec_cases.push(DecCase { enc_case: c.clone(), response, free, drip: false, fixed: None, segments: 1 });
+            dec_cases.push(DecCase { enc_case: c.clone(), response, free: false, drip: true, fixed: None, segments: 1 });
         }
     }
     // streams longer than 72 wire bytes get one deviation less (the number of chunkings with k cuts
@@ -383,16 +390,16 @@ pub fn property(tier: Tier) -> Property {
         Config { max_bound: tier.q(1, 2), ..Default::default() },
         "as section decode, for streams longer than 72 (quick) / 40 (thorough) wire bytes: every chunking with <= bound cuts / Pending / empty-frame deviations (bound one less than for short streams). Non-trivial = at least one chunk boundary fell strictly inside a frame.",
         long_cases,
-        |c: &DecCase| format!("prost={} settings={:?} msgs={:?} enc={} response={} free={} drip={}", c.enc_case.prost, c.enc_case.settings, c.enc_case.msgs.iter().map(|m| m.len()).collect::<Vec<_>>(), enc_name(c.enc_case.enc), c.response, c.free, c.drip),
+        |c: &DecCase| format!("prost={} settings={:?} msgs={:?} enc={} response={} free={} drip={} fixed={:?} segments={}", c.enc_case.prost, c.enc_case.settings, c.enc_case.msgs.iter().map(|m| m.len()).collect::<Vec<_>>(), enc_name(c.enc_case.enc), c.response, c.free, c.drip, c.fixed, c.segments),
         dec_body,
     )
     .mins(500, 5, 100);
     let dec_sec = Section::new(
         "decode",
         Config { max_bound: tier.q(2, 3), ..Default::default() },
-        "cases: the wire bytes tonic's encoder produced for each encode case, fed to Streaming::new_request / new_response(200, grpc-status 0); environment: the body chooses the length of every DATA frame — every composition (cuts cost 0) for identity streams <= 14 (quick) / 20 (thorough) bytes, otherwise every chunking with <= bound cuts — plus Pending and empty DATA frames as deviations, plus byte-by-byte drip; oracle: decoded messages == originals in order, then None three times. Non-trivial = at least one chunk boundary fell strictly inside a frame (prefix or payload).",
+        "cases: the wire bytes tonic's encoder produced for each encode case, fed to Streaming::new_request / new_response(200, grpc-status 0); environment: the body chooses the length of every DATA frame — every composition (cuts cost 0) for identity streams <= 14 (quick) / 20 (thorough) bytes, otherwise every chunking with <= bound cuts — plus Pending and empty DATA frames as deviations, plus byte-by-byte drip, plus DATA frames handed over as non-contiguous buffers (a Buf of 2 or 3 segments per frame); oracle: decoded messages == originals in order, then None three times. Non-trivial = at least one chunk boundary fell strictly inside a frame (prefix or payload).",
         dec_cases,
-        |c: &DecCase| format!("prost={} settings={:?} msgs={:?} enc={} response={} free={} drip={}", c.enc_case.prost, c.enc_case.settings, c.enc_case.msgs.iter().map(|m| m.len()).collect::<Vec<_>>(), enc_name(c.enc_case.enc), c.response, c.free, c.drip),
+        |c: &DecCase| format!("prost={} settings={:?} msgs={:?} enc={} response={} free={} drip={} fixed={:?} segments={}", c.enc_case.prost, c.enc_case.settings, c.enc_case.msgs.iter().map(|m| m.len()).collect::<Vec<_>>(), enc_name(c.enc_case.enc), c.response, c.free, c.drip, c.fixed, c.segments),
         dec_body,
     )
     .mins(1000, 10, 100);
